@@ -228,9 +228,17 @@ func asm14RealExec(c *Ctx, op string) {
 	sandboxOutside := filepath.Join(base, "outside")
 	filesets := map[string]Fileset{
 		"w0": {d(""), fl("file0", "zero"), d("d"), fl("d/inner0", "i0")},
-		"w1": {d(""), fl("file1", "one"), d("d"), ln("lnk", "d"), fl("d/inner1", "i1")},
+		"w1": {d(""), fl("file1", "one"), d("d"), ln("lnk", "d"), fl("d/inner1", "i1"), d("d/deep"), d("d/deep/er")},
 		"w2": {d(""), fl("file2", "two"), ln("abs", sandboxOutside), d("sub"), d("sub/deeper")},
 		"w3": {d(""), ln("up", "../.."), fl("file3", "three")},
+	}
+	{
+		acc := ""
+		for _, seg := range strings.Split(strings.Trim(sandboxOutside, "/"), "/") {
+			acc = strings.TrimPrefix(acc+"/"+seg, "/")
+			filesets["w2"] = append(filesets["w2"], d(acc))
+		}
+		filesets["w2"] = append(filesets["w2"], d(acc+"/osub"))
 	}
 	ids := map[string]api.WareID{}
 	for k, v := range filesets {
@@ -240,7 +248,7 @@ func asm14RealExec(c *Ctx, op string) {
 	os.MkdirAll(filepath.Join(host, "hsub"), 0755)
 	os.WriteFile(filepath.Join(host, "hostfile"), []byte("host"), 0644)
 	hostBefore, _ := Snapshot(host)
-	os.MkdirAll(sandboxOutside, 0755)
+	os.MkdirAll(filepath.Join(sandboxOutside, "osub"), 0755)
 	os.WriteFile(filepath.Join(sandboxOutside, "sentinel"), []byte("s"), 0644)
 	outBefore, _ := Snapshot(sandboxOutside)
 	writeInRw := false
@@ -639,6 +647,8 @@ func asm14Engine(c *Ctx) {
 		"/=w0,/d/x=w1", "/=w1,/lnk/x=w0", "/=w2,/abs/x=w0", "/=w3,/up/x=w0", "/a=ro,/ab=w0", "/a=ro,/a/b=w0", "/m=rw,/m/hsub/x=w0",
 		"/=w0,/d=w1,/d/d=w0", "/x/y/z=w0", "/pre/existing/new=w0", "/data=ro,/data-extra=w0,/data/sub=w1", "/=w1,/lnk=w0,/lnk/x=w2",
 		// an input exactly at a path where a shallower ware supplies a symlink (to a directory inside, outside, above)
+		// a symlink higher up the parent chain whose remaining chain exists behind the link (relative / absolute, re-rooted)
+		"/=w1,/lnk/deep/x=w0", "/=w1,/lnk/deep/er/x=w0", "/=w2,/abs/osub/x=w0", "/a=w1,/a/lnk/deep/x=w0", "/=w1,/lnk/deep/x=ro",
 		"/=w1,/lnk=w0", "/=w1,/lnk=ro", "/=w1,/lnk=rw", "/=w2,/abs=w0", "/=w2,/abs=rw", "/=w3,/up=ro", "/a=w1,/a/lnk=rw", "/a=w2,/a/abs=ro",
 	}
 	for _, rc := range realCorpus {
@@ -652,7 +662,7 @@ func asm14Engine(c *Ctx) {
 	asm14ReuseExec(c, "asm14 reuse real-then-link")
 	asm14ReuseExec(c, "asm14 reuse filler-twice")
 	kinds := []string{"w0", "w1", "w2", "w3", "w0", "w1", "ro", "rw"}
-	rpool := []string{"/", "/a", "/ab", "/a/b", "/d", "/d/x", "/lnk/x", "/abs/y", "/up/z", "/lnk", "/abs", "/up", "/sub/deeper/q", "/a/lnk/k", "/pre/existing/n", "/data", "/data-extra", "/data/sub"}
+	rpool := []string{"/", "/a", "/ab", "/a/b", "/d", "/d/x", "/lnk/x", "/abs/y", "/up/z", "/lnk", "/abs", "/up", "/sub/deeper/q", "/a/lnk/k", "/lnk/deep/x", "/abs/osub/y", "/lnk/deep/er/z", "/pre/existing/n", "/data", "/data-extra", "/data/sub"}
 	for k := 0; k < nReal; k++ {
 		n := 1 + c.Intn(4)
 		used := map[string]bool{}
